@@ -1,3 +1,150 @@
+from vc.rules import rule
+from vc.extract import Undecided
+from vc import rustlex as L
+
+# ---- unit-local rewrite rules for `match` guards -------------------------------------------------------
+# Why they exist (Verus 0.2026.09.13 limitation, reproduced in units/c01_reader/probe_guard_limitation.rs): when a
+# *guarded* match arm's body mutates a `&mut` parameter, Verus loses `final(param) == *param` on the
+# path where the guard fails (assertions about `*param` still hold, only the postcondition link is lost).
+# Every guarded arm of `lex` / `lex_number` bumps the reader, so these functions cannot be checked with
+# guards in place. The two rules below remove guards by the textbook meaning of `match` (Rust reference,
+# "Match expressions": arms are tried in order; an arm is taken iff its pattern matches and its guard, if
+# any, evaluates to true; the scrutinee is evaluated once).
+
+
+def _is_arrow(text, toks, k):
+    return (k + 1 < len(toks) and L.tok_text(text, toks[k]) == '=' and L.tok_text(text, toks[k + 1]) == '>'
+            and toks[k][2] == toks[k + 1][1])
+
+
+def _parse_match(text, toks, mi):
+    """toks[mi] is the ident `match`. -> (scrut_span, open_idx, close_idx, arms) ; arm = dict(pat, guard, body, block)"""
+    j = mi + 1
+    while True:
+        t = L.tok_text(text, toks[j])
+        if t in ('(', '['):
+            j = L.match_close(text, toks, j) + 1; continue
+        if t == '{': break
+        j += 1
+    ob, cb = j, L.match_close(text, toks, j)
+    scrut = (toks[mi + 1][1], toks[ob - 1][2])
+    arms = []
+    k = ob + 1
+    while k < cb:
+        a = k
+        g = None
+        while not _is_arrow(text, toks, k):
+            t = L.tok_text(text, toks[k])
+            if t in ('(', '[', '{'):
+                k = L.match_close(text, toks, k) + 1; continue
+            if t == 'if' and toks[k][0] == 'ident' and g is None: g = k
+            k += 1
+            if k >= cb: raise Undecided('match arm without =>')
+        arrow = k
+        pat = (toks[a][1], toks[(g if g is not None else arrow) - 1][2])
+        guard = (toks[g + 1][1], toks[arrow - 1][2]) if g is not None else None
+        k = arrow + 2
+        if L.tok_text(text, toks[k]) == '{':
+            e = L.match_close(text, toks, k)
+            body, block = (toks[k][1], toks[e][2]), True
+            k = e + 1
+        else:
+            b0 = k
+            while k < cb and L.tok_text(text, toks[k]) != ',':
+                if L.tok_text(text, toks[k]) in ('(', '[', '{'):
+                    k = L.match_close(text, toks, k) + 1
+                else:
+                    k += 1
+            body, block = (toks[b0][1], toks[k - 1][2]), False
+        if k < cb and L.tok_text(text, toks[k]) == ',': k += 1
+        arms.append({'pat': pat, 'guard': guard, 'body': body, 'block': block,
+                     'start': toks[a][1], 'end': toks[k - 1][2]})
+    return scrut, ob, cb, arms
+
+
+def _matches(text):
+    toks = L.code_tokens(text)
+    for i, t in enumerate(toks):
+        if t[0] == 'ident' and L.tok_text(text, t) == 'match':
+            yield toks, i, _parse_match(text, toks, i)
+
+
+def _blk(text, arm):
+    b = text[arm['body'][0]:arm['body'][1]]
+    return b if arm['block'] else '{ ' + b + ' }'
+
+
+def _irrefutable(text, arm):
+    p = text[arm['pat'][0]:arm['pat'][1]]
+    return p == '_' or (p.isidentifier() and p[0].islower())
+
+
+@rule('guard-catchall-merge')
+def guard_catchall_merge(text, **_):
+    """the trailing run of arms whose patterns are irrefutable (`_` or a plain binding `x`), the last one unguarded:
+    `_ if G1 => B1, x if G2 => B2, _ => B3`  ->  `x => if G1 {B1} else if G2 {B2} else {B3}`.
+    All these patterns match every value, so which body runs is decided by the guards alone, in order; the binding
+    (a by-value copy of the scrutinee) is merely introduced earlier."""
+    n = 0
+    while True:
+        hit = None
+        for toks, mi, (scrut, ob, cb, arms) in _matches(text):
+            k = len(arms)
+            while k > 0 and _irrefutable(text, arms[k - 1]): k -= 1
+            run = arms[k:]
+            if len(run) >= 2 and run[-1]['guard'] is None and any(a['guard'] for a in run):
+                if any(a['guard'] is None for a in run[:-1]):
+                    raise Undecided('guard-catchall-merge: unguarded catch-all before the last arm')
+                hit = run; break
+        if not hit: break
+        names = {text[a['pat'][0]:a['pat'][1]] for a in hit} - {'_'}
+        if len(names) > 1: raise Undecided('guard-catchall-merge: different binders')
+        binder = names.pop() if names else '_'
+        parts = []
+        for a in hit[:-1]:
+            parts.append('if %s %s' % (text[a['guard'][0]:a['guard'][1]], _blk(text, a)))
+        chain = ' else '.join(parts) + ' else ' + _blk(text, hit[-1])
+        text = text[:hit[0]['start']] + '%s => %s' % (binder, chain) + text[hit[-1]['end']:]
+        n += 1
+    return text, n
+
+
+@rule('match-guard-if-chain')
+def match_guard_if_chain(text, max_arms=8, **_):
+    """a `match` on a `char` value that has guarded literal arms and ends in an unguarded `_` arm:
+    `match E { P1 if G1 => B1, P2 => B2, _ => B3 }` -> `{ let vx_m = E; if matches!(vx_m, P1) && (G1) {B1}
+    else if matches!(vx_m, P2) {B2} else {B3} }`. Patterns are char literals / ranges / or-patterns (no bindings),
+    so testing them has no effect; order of tests and guards is the order of the arms."""
+    n = 0
+    while True:
+        hit = None
+        for toks, mi, (scrut, ob, cb, arms) in _matches(text):
+            if any(a['guard'] for a in arms):
+                hit = (toks, mi, scrut, ob, cb, arms); break
+        if not hit: break
+        toks, mi, scrut, ob, cb, arms = hit
+        if len(arms) > max_arms:
+            raise Undecided('match-guard-if-chain: %d arms (> %d); use guard-catchall-merge first' % (len(arms), max_arms))
+        last = arms[-1]
+        if text[last['pat'][0]:last['pat'][1]] != '_' or last['guard']:
+            raise Undecided('match-guard-if-chain: last arm is not an unguarded `_`')
+        parts = []
+        for a in arms[:-1]:
+            p = text[a['pat'][0]:a['pat'][1]]
+            if any(t[0] == 'ident' for t in L.code_tokens(p)) and p != '_':
+                raise Undecided('match-guard-if-chain: pattern with identifiers: ' + p)
+            conds = []
+            if p != '_': conds.append('matches!(vx_m, %s)' % p)
+            if a['guard']: conds.append('(%s)' % text[a['guard'][0]:a['guard'][1]])
+            if not conds: raise Undecided('match-guard-if-chain: unguarded `_` before the last arm')
+            parts.append('if %s %s' % (' && '.join(conds), _blk(text, a)))
+        chain = ' else '.join(parts) + ' else ' + _blk(text, last)
+        new = '{ let vx_m = %s; %s }' % (text[scrut[0]:scrut[1]], chain)
+        text = text[:toks[mi][1]] + new + text[toks[cb][2]:]
+        n += 1
+    return text, n
+
+
 RD = 'crates/emmylua_parser/src/text/reader.rs'
 TR = 'crates/emmylua_parser/src/text/text_range.rs'
 LX = 'crates/emmylua_parser/src/lexer/lua_lexer.rs'
@@ -25,7 +172,7 @@ def eat_loop(counter, extra=''):
     return '''
     invariant
         rinv(old(self)), bumped(old(self), &*self),
-        %s == consumed(&*self) - consumed(old(self)),
+        %s == consumed(&*self) - consumed(old(self)) /*@C02.reader.eat-counts-every-char-it-bumps*/,
         %s
     decreases r_n(&*self) - consumed(&*self) /*@C02.reader.eat-loops-terminate*/
 ''' % (counter, extra)
@@ -95,7 +242,7 @@ READER = {
             if k0 + 3 <= s.len() { assert(s.subrange(k0 + 2, s.len() as int).drop_first() =~= s.subrange(k0 + 3, s.len() as int)); }
             let n = s.len() as int;
             assert(self.chars.remaining() == (if k0 + 3 <= n { s.subrange(k0 + 3, n) } else { Seq::<char>::empty() }));
-            assert(self.current_buffer_byte_pos + self.current_buffer_byte_len == plen(s, k0 + 1));
+            assert(self.current_buffer_byte_pos + self.current_buffer_byte_len == plen(s, k0 + 1)) /*@C01.reader.bump-keeps-byte-offset-invariant*/;
             assert(r_at(&*self, k0 + 1));
             lemma_r_at(&*self, k0 + 1);
         }''')]),
@@ -103,17 +250,17 @@ READER = {
         'reset_buff',
         requires='rinv(old(self))',
         ensures='''
-        rinv(final(self)), same_src(old(self), final(self)), consumed(final(self)) == consumed(old(self)),
+        rinv(final(self)), same_src(old(self), final(self)), 0 <= consumed(final(self)) == consumed(old(self)) <= r_n(old(self)),
         final(self).current_buffer_byte_pos == old(self).current_buffer_byte_pos + old(self).current_buffer_byte_len
           && final(self).current_buffer_byte_len == 0 /*@C01.reader.reset-moves-start-to-cursor*/,
         final(self).current == old(self).current, final(self).next == old(self).next''',
         body_first=K0,
         proof=[(r'self\.current_buffer_byte_len = 0;', 'after', '''
-        proof { assert(r_at(&*self, k0)); lemma_r_at(&*self, k0); }''')]),
+        proof { assert(r_at(&*self, k0)) /*@C01.reader.reset-moves-start-to-cursor*/; lemma_r_at(&*self, k0); }''')]),
     'Reader::is_eof': rd_fn(
         'is_eof', ret='r',
         requires='rinv(self)',
-        ensures='r <==> consumed(self) == r_n(self) /*@C01.reader.eof-iff-end-of-text*/',
+        ensures='r <==> consumed(self) == r_n(self) /*@C01.reader.eof-iff-end-of-text*/, 0 <= consumed(self) <= r_n(self)',
         body_first='proof { lemma_rinv(self); }'),
     'Reader::is_start_of_line': rd_fn('is_start_of_line', ret='r', ensures='r == (self.current_buffer_byte_pos == 0)'),
     'Reader::prev_char': rd_fn('prev_char', ret='r', ensures='r == self.prev'),
@@ -147,16 +294,16 @@ READER = {
         ensures='''bumped(old(self), final(self)), r == consumed(final(self)) - consumed(old(self)),
         consumed(final(self)) < r_n(final(self)) ==> final(self).text@[consumed(final(self))] != ch,
         (consumed(old(self)) < r_n(old(self)) && old(self).text@[consumed(old(self))] == ch) ==> consumed(final(self)) > consumed(old(self))''',
-        loops={0: eat_loop('count')}, proof=EAT_STEP),
+        body_first='proof { lemma_rinv(&*self); }', loops={0: eat_loop('count')}, proof=EAT_STEP),
     'Reader::consume_char_n_times': rd_fn(
         'consume_char_n_times', ret='r', requires='rinv(old(self))',
         ensures='bumped(old(self), final(self)), r == consumed(final(self)) - consumed(old(self)), r <= count',
-        loops={0: eat_loop('eaten', 'eaten <= count,')}, proof=EAT_STEP),
+        body_first='proof { lemma_rinv(&*self); }', loops={0: eat_loop('eaten', 'eaten <= count,')}, proof=EAT_STEP),
     'Reader::consume_n_times': rd_fn(
         'consume_n_times', ret='r',
         requires='rinv(old(self)), forall|c: char| func.requires((c,))',
         ensures='bumped(old(self), final(self)), r == consumed(final(self)) - consumed(old(self)), r <= count',
-        loops={0: eat_loop('eaten', 'eaten <= count, forall|c: char| func.requires((c,)),')}, proof=EAT_STEP),
+        body_first='proof { lemma_rinv(&*self); }', loops={0: eat_loop('eaten', 'eaten <= count, forall|c: char| func.requires((c,)),')}, proof=EAT_STEP),
     'Reader::eat_while': rd_fn(
         'eat_while', ret='r',
         requires='rinv(old(self)), forall|c: char| func.requires((c,))',
@@ -166,7 +313,7 @@ READER = {
         // ... and eats the first char unless the predicate may reject it
         (consumed(old(self)) < r_n(old(self)) && !func.ensures((old(self).text@[consumed(old(self))],), false))
             ==> consumed(final(self)) > consumed(old(self)) /*@C02.reader.eat-while-progress*/''',
-        loops={0: eat_loop('count', 'forall|c: char| func.requires((c,)),')}, proof=EAT_STEP),
+        body_first='proof { lemma_rinv(&*self); }', loops={0: eat_loop('count', 'forall|c: char| func.requires((c,)),')}, proof=EAT_STEP),
     'Reader::eat_till_end': rd_fn(
         'eat_till_end', ret='r', rules=['closure-wildcard'], requires='rinv(old(self))',
         ensures='bumped(old(self), final(self)), r == consumed(final(self)) - consumed(old(self))'),
@@ -177,9 +324,160 @@ READER = {
         body_first='proof { lemma_rinv(self); }'),
 }
 
+# ---- lexer -------------------------------------------------------------------------------------------
+KD = 'crates/emmylua_parser/src/kind/lua_token_kind.rs'
+FT = 'crates/emmylua_parser/src/kind/lua_features.rs'
+LM = 'crates/emmylua_parser/src/lexer/mod.rs'
+TD = 'crates/emmylua_parser/src/lexer/token_data.rs'
+LC = 'crates/emmylua_parser/src/lexer/lexer_config.rs'
+
+
+def lx_fn(name, **kw):
+    d = {'src': {'file': LX, 'kind': 'fn', 'impl': 'LuaLexer', 'name': name}}
+    d.update(kw)
+    return d
+
+
+R0, R1, RC = '&old(self).reader', '&final(self).reader', '&self.reader'
+PRE = 'rinv(%s)' % R0
+CFG = 'final(self).lexer_config == old(self).lexer_config'
+SAME_STATE = 'final(self).state == old(self).state'
+# after a string / long-string scan the lexer is back in Normal state unless the text ended inside it
+STATE_DONE = ('(final(self).state == LexerState::Normal || (final(self).state == old(self).state && '
+              'consumed(%s) == r_n(%s)))' % (R1, R1))
+PROGRESS = 'consumed(%s) < r_n(%s) ==> consumed(%s) > consumed(%s)' % (R0, R0, R1, R0)
+CUR0 = 'old(self).reader.text@[consumed(%s)]' % R0
+
+
+def lx_loop(extra=''):
+    """loop overlay of the scanning loops: only bumps since entry, lexer mode untouched, chars left decrease"""
+    return """
+    invariant
+        rinv(%(R0)s), bumped(%(R0)s, %(RC)s), self.lexer_config == old(self).lexer_config, self.state == old(self).state,
+        %(extra)s
+    decreases r_n(%(RC)s) - consumed(%(RC)s) /*@C02.lexer.scan-loops-terminate*/
+""" % {'R0': R0, 'RC': RC, 'extra': extra}
+
+
+STARTED = 'consumed(%s) < r_n(%s) ==> consumed(%s) > consumed(%s),' % (R0, R0, RC, R0)
+
+LEXER = {
+    'LuaTokenKind': {'src': {'file': KD, 'kind': 'enum', 'name': 'LuaTokenKind', 'drop_attrs': False}},
+    'LuaTokenData': {'src': {'file': TD, 'kind': 'struct', 'name': 'LuaTokenData', 'drop_attrs': False}},
+    'LuaTokenData::new': {'src': {'file': TD, 'kind': 'fn', 'impl': 'LuaTokenData', 'name': 'new'},
+                          'ret': 'r', 'ensures': 'r.kind == kind, r.range == range'},
+    'LexerState': {'src': {'file': LM, 'kind': 'enum', 'name': 'LexerState', 'drop_attrs': False}},
+    'LuaFeatures': {'src': {'file': FT, 'kind': 'enum', 'name': 'LuaFeatures'}},
+    'LuaFeaturesSet': {'src': {'file': FT, 'kind': 'struct', 'name': 'LuaFeaturesSet'}},
+    'LuaFeaturesSet::support': {'src': {'file': FT, 'kind': 'fn', 'impl': 'LuaFeaturesSet', 'name': 'support'}},
+    'LexerConfig': {'src': {'file': LC, 'kind': 'struct', 'name': 'LexerConfig'},
+                    'rules': [('struct-fields', {'keep': ['features']})]},
+    'LexerConfig::support': {'src': {'file': LC, 'kind': 'fn', 'impl': 'LexerConfig', 'name': 'support'}},
+    'is_name_start': {'src': {'file': LM, 'kind': 'fn', 'name': 'is_name_start'}},
+    'is_name_continue': {'src': {'file': LM, 'kind': 'fn', 'name': 'is_name_continue'}},
+    'LuaLexer': {'src': {'file': LX, 'kind': 'struct', 'name': 'LuaLexer'},
+                 'rules': [('struct-fields', {'drop': ['errors']})]},
+    'LuaLexer::new': lx_fn('new', ret='r', ensures='r.reader == reader, r.state == LexerState::Normal, r.lexer_config == lexer_config'),
+    'LuaLexer::new_with_state': lx_fn('new_with_state', ret='r', rules=['c01-drop-errors-init'],
+                                      ensures='r.reader == reader, r.state == state, r.lexer_config == lexer_config'),
+    'LuaLexer::tokenize': lx_fn(
+        'tokenize', ret='tokens', rules=['closure-ensures'],
+        requires="""rinv(%(R0)s),
+        old(self).reader.current_buffer_byte_pos == 0 && old(self).reader.current_buffer_byte_len == 0 /* fresh reader */,
+        old(self).state == LexerState::Normal""" % {'R0': R0},
+        ensures="""
+        tiled(tokens@, old(self).reader.text.spec_bytes(), old(self).reader.valid_range.start_offset as int,
+              old(self).reader.valid_range.start_offset + old(self).reader.text.spec_bytes().len()) /*@C01.tokenize.tiles-the-text*/,
+        rinv(%(R1)s), same_src(%(R0)s, %(R1)s), consumed(%(R1)s) == r_n(%(R1)s)""" % {'R0': R0, 'R1': R1},
+        body_first='proof { lemma_rinv(&self.reader); }',
+        loops={0: """
+    invariant
+        rinv(%(RC)s), same_src(%(R0)s, %(RC)s),
+        tiled(tokens@, self.reader.text.spec_bytes(), self.reader.valid_range.start_offset as int,
+              self.reader.valid_range.start_offset + self.reader.current_buffer_byte_pos + self.reader.current_buffer_byte_len),
+        self.state != LexerState::Normal ==> consumed(%(RC)s) == r_n(%(RC)s),
+    ensures
+        consumed(%(RC)s) == r_n(%(RC)s) /*@C01.tokenize.covers-to-end-of-text*/,
+    decreases r_n(%(RC)s) - consumed(%(RC)s) /*@C02.tokenize.terminates*/
+""" % {'R0': R0, 'RC': RC}},
+        proof=[
+            (r'LuaTokenKind::TkShebang,\s*self\.reader\.current_range\(\),\s*\)\);', 'after', """
+            proof {
+                lemma_rinv(&self.reader);
+                lemma_tiled_push(Seq::<LuaTokenData>::empty(), self.reader.text.spec_bytes(),
+                    self.reader.valid_range.start_offset as int, self.reader.valid_range.start_offset as int, tokens@.last()) /*@C01.tokenize.tiles-the-text*/;
+                assert(tokens@ =~= Seq::<LuaTokenData>::empty().push(tokens@.last()));
+            }"""),
+            (r'let kind = match self\.state \{', 'before', """
+            let ghost toks0 = tokens@;
+            let ghost hi0 = self.reader.valid_range.start_offset + self.reader.current_buffer_byte_pos + self.reader.current_buffer_byte_len;
+            """),
+            (r'tokens\.push\(LuaTokenData::new\(kind, self\.reader\.\w+\(\)\)\);', 'after', """
+            proof {
+                lemma_rinv(&self.reader);
+                lemma_tiled_push(toks0, self.reader.text.spec_bytes(), self.reader.valid_range.start_offset as int, hi0, tokens@.last()) /*@C01.tokenize.tiles-the-text*/;
+                assert(tokens@ =~= toks0.push(tokens@.last()));
+            }"""),
+            (r'break;', 'before', 'proof { assert(false) /*@C01.tokenize.never-stops-before-end-of-text*/; }'),
+            (r'tokens\s*\}\s*$', 'before', 'proof { lemma_rinv(&self.reader); }'),
+        ]),
+    'LuaLexer::get_state': lx_fn('get_state', ret='r', ensures='r == self.state'),
+    'LuaLexer::support': lx_fn('support'),
+    'LuaLexer::name_to_kind': lx_fn('name_to_kind', ret='r', ensures='real_kind(r) /*@C01.lex.name-kind-is-real*/'),
+    'LuaLexer::lex': lx_fn(
+        'lex', ret='r', rules=['drop-errors', ('guard-catchall-merge', {'count': 3}), ('match-guard-if-chain', {'count': 4})], attrs='#[verifier::spinoff_prover]',
+        requires=PRE,
+        ensures="""
+        reset_then_bumped(%(R0)s, %(R1)s) /*@C01.lex.one-reset-then-bumps-only*/,
+        %(PROGRESS)s /*@C02.lex.progress*/,
+        consumed(%(R0)s) < r_n(%(R0)s) ==> real_kind(r) /*@C01.lex.no-eof-kind-before-end*/,
+        old(self).state == LexerState::Normal ==> (final(self).state == LexerState::Normal || consumed(%(R1)s) == r_n(%(R1)s)),
+        %(CFG)s""" % {'R0': R0, 'R1': R1, 'PROGRESS': PROGRESS, 'CFG': CFG},
+        loops={0: """
+    invariant
+        rinv(%(R0)s), reset_then_bumped(%(R0)s, %(RC)s), consumed(%(RC)s) > consumed(%(R0)s),
+        self.lexer_config == old(self).lexer_config, self.state == old(self).state,
+    decreases r_n(%(RC)s) - consumed(%(RC)s) /*@C02.lexer.scan-loops-terminate*/
+""" % {'R0': R0, 'RC': RC}}),
+    'LuaLexer::lex_new_line': lx_fn(
+        'lex_new_line', ret='r', requires=PRE,
+        ensures="""bumped(%(R0)s, %(R1)s), %(SAME)s, %(CFG)s, r == LuaTokenKind::TkEndOfLine,
+        (consumed(%(R0)s) < r_n(%(R0)s) && (%(CUR0)s == '\\n' || %(CUR0)s == '\\r')) ==> consumed(%(R1)s) > consumed(%(R0)s) /*@C02.lex.progress*/"""
+        % {'R0': R0, 'R1': R1, 'SAME': SAME_STATE, 'CFG': CFG, 'CUR0': CUR0}),
+    'LuaLexer::lex_white_space': lx_fn(
+        'lex_white_space', ret='r', rules=['closure-ensures'], requires=PRE,
+        ensures="""bumped(%(R0)s, %(R1)s), %(SAME)s, %(CFG)s, r == LuaTokenKind::TkWhitespace,
+        (consumed(%(R0)s) < r_n(%(R0)s) && (%(CUR0)s == ' ' || %(CUR0)s == '\\t')) ==> consumed(%(R1)s) > consumed(%(R0)s) /*@C02.lex.progress*/"""
+        % {'R0': R0, 'R1': R1, 'SAME': SAME_STATE, 'CFG': CFG, 'CUR0': CUR0}),
+    'LuaLexer::skip_sep': lx_fn(
+        'skip_sep', ret='r', requires=PRE,
+        ensures='bumped(%s, %s), %s, %s' % (R0, R1, SAME_STATE, CFG)),
+    'LuaLexer::lex_string': lx_fn(
+        'lex_string', ret='r', rules=['drop-errors'], requires=PRE,
+        ensures='bumped(%s, %s), %s, r == LuaTokenKind::TkString,\n        %s /*@C01.lex.back-to-normal-state-unless-text-ended*/' % (R0, R1, CFG, STATE_DONE),
+        body_first='proof { lemma_rinv(&self.reader); }', loops={0: lx_loop()}),
+    'LuaLexer::lex_long_string': lx_fn(
+        'lex_long_string', ret='r', rules=['drop-errors'], requires=PRE,
+        ensures='bumped(%s, %s), %s, r == LuaTokenKind::TkLongString,\n        %s /*@C01.lex.back-to-normal-state-unless-text-ended*/' % (R0, R1, CFG, STATE_DONE),
+        body_first='proof { lemma_rinv(&self.reader); }', loops={0: lx_loop()}),
+    'LuaLexer::lex_number': lx_fn(
+        'lex_number', ret='r', rules=['drop-errors', ('guard-catchall-merge', {'count': 4}), ('match-guard-if-chain', {'count': 1})], requires=PRE,
+        ensures='bumped(%s, %s), %s, %s, real_kind(r), %s /*@C02.lex.progress*/' % (R0, R1, SAME_STATE, CFG, PROGRESS),
+        body_first='proof { lemma_rinv(&self.reader); }', loops={0: lx_loop(STARTED), 1: lx_loop(STARTED)}),
+}
+
 UNIT = {
-    'items': dict(READER),
+    'items': dict(READER, **LEXER),
     'extra_rules': [
+        ('drop-errors', r'self\.error\(\|\| t!\((?:[^()]|\([^()]*\))*\)\);', 'vx_note_error();',
+         'self.error(|| t!(..)) -> vx_note_error(): `LuaLexer::error` only pushes a LuaParseError (message text from the i18n '
+         'macro, range = reader.current_range()) onto the projected-out field `errors`; reader, state and config are untouched'),
+        ('c01-drop-errors-init', r'\n\s*errors,(?=\s*\n\s*state,)', '',
+         'struct projection companion: the initialiser of the dropped field `errors` is removed from `new_with_state`'),
+        ('closure-ensures', r"\|(\w+)\| ((?:\1 [!=]= '(?:\\.|[^'\\])'(?: (?:&&|\|\|) )?)+)(?=\))",
+         r'|\1: char| -> (vx_b: bool) ensures vx_b == (\2) { \2 }',
+         'closure `|c| <comparisons of c with char literals>` gets its own body as a (verified) `ensures` annotation: ghost '
+         'annotation only, the executable body is unchanged'),
         ('closure-wildcard', r'\|_\|', '|_c: char|',
          'closure parameter `_` -> named, unused parameter `_c` (Verus accepts only variables as closure parameters)'),
         ('assert-bang', r'(?<![\w!])assert!\(([^;]*?)\);', r'assert(\1);',
@@ -188,13 +486,62 @@ UNIT = {
          'debug_assert!(c) -> assert(c): the debug-build panic condition becomes a proof obligation; in release builds the '
          'statement is absent, so proving it changes nothing there'),
     ],
-    'allow': [r'assume_specification\[ char::is_(alphabetic|alphanumeric|ascii_digit) \]'],
-    'min_obligations': 20,
+    'allow': [r'assume_specification\[ char::is_(alphabetic|alphanumeric|ascii_digit) \]',
+              r'external_body', r'pub struct LuaParseError', r'pub fn vx_note_error'],
+    'min_obligations': 60,
     'trusted': [
         'char::{is_alphabetic,is_alphanumeric,is_ascii_digit}: total, result unconstrained (assume_specification without ensures)',
         'str_len_ok: a &str is at most usize::MAX bytes long (precondition of Reader::new / new_with_range; vstd has no such axiom)',
-        'vstd specs of str::chars / Chars::next / char::len_utf8 / str slicing',
+        'vstd specs of str::chars / Chars::next (IteratorSpec::remaining) / char::len_utf8 / str::len / str slicing / Vec::push',
+        '#[derive(PartialEq)] on LuaTokenKind and LexerState is structural equality (PartialEqSpecImpl in the template)',
+        'vx_note_error(): `self.error(|| t!(..))` touches only the projected-out field `errors` (and the i18n macro does not panic)',
+        'rewrite rules drop-errors, guard-catchall-merge, match-guard-if-chain, closure-ensures, closure-wildcard, assert-eq, debug-assert, assert-bang (see extra_rules / unit.py doc strings)',
     ],
-    'samples': [],
-    'mutants': [],
+    'not_covered': [
+        'LuaLexer::tokenize started in state String/LongString/LongComment (continue_with_new_reader): contract requires LexerState::Normal and a fresh reader',
+        'Reader::reset_buff_into_sub_reader (Chars::next_back has no vstd spec), LuaLexer::error (rust_i18n), SourceRange::{merge,contains*,intersect} and the TextRange conversions',
+        'LuaDocLexer and the lexers of emmylua_parser_desc that are built on Reader',
+    ],
+    'samples': [
+        'Reader::bump: consumed\' == consumed + 1 iff consumed < chars(text).len(); byte offset pos+len == |utf8(chars[..consumed])|',
+        'Reader::is_eof: r <==> consumed == chars(text).len()   (fails on the unrepaired reader: NUL sentinel)',
+        'LuaLexer::lex (verbatim 400-line match): exactly one reset_buff then bumps only; >= 1 char consumed and kind not TkEof/None unless at end of text',
+        'LuaLexer::tokenize: tiled(tokens, text bytes, start, start + text.len()): first starts at start, adjacent, last ends at the end, every token non-empty, on char boundaries, kind != TkEof/None',
+    ],
+    'mutants': [
+        {'name': 'bump-adds-one-byte', 'item': 'Reader::bump',
+         'pattern': r'self\.current\.len_utf8\(\)', 'repl': '1',
+         'expect': r'C01\.reader\.bump-keeps-byte-offset-invariant'},
+        {'name': 'reset-forgets-length', 'item': 'Reader::reset_buff',
+         'pattern': r'self\.current_buffer_byte_pos \+= self\.current_buffer_byte_len;', 'repl': '',
+         'expect': r'C01\.reader\.reset-moves-start-to-cursor'},
+        {'name': 'eof-by-sentinel', 'item': 'Reader::is_eof',
+         'pattern': r'self\.current_buffer_byte_pos \+ self\.current_buffer_byte_len >= self\.text\.len\(\)', 'repl': 'self.current == EOF',
+         'expect': r'C01\.reader\.eof-iff-end-of-text'},
+        {'name': 'bump-stops-at-sentinel', 'item': 'Reader::bump',
+         'pattern': r'if !self\.is_eof\(\) \{', 'repl': 'if self.current != EOF {',
+         'expect': r'C01\.reader\.bump-advances-unless-at-end'},
+        {'name': 'tokenize-pushes-tail-range', 'item': 'LuaLexer::tokenize',
+         'pattern': r'LuaTokenData::new\(kind, self\.reader\.current_range\(\)\)', 'repl': 'LuaTokenData::new(kind, self.reader.tail_range())',
+         'expect': r'C01\.tokenize\.tiles-the-text'},
+        {'name': 'tokenize-breaks-before-push', 'item': 'LuaLexer::tokenize',
+         'pattern': r'if kind == LuaTokenKind::TkEof \{', 'repl': 'if kind != LuaTokenKind::TkEof {',
+         'expect': r'C01\.tokenize\.never-stops-before-end-of-text'},
+        {'name': 'lex-arm-forgets-to-bump', 'item': 'LuaLexer::lex',
+         'pattern': r"'#' => \{\s*self\.reader\.bump\(\);", 'repl': "'#' => {",
+         'expect': r'C02\.lex\.progress'},
+        {'name': 'lex-resets-in-the-middle', 'item': 'LuaLexer::lex',
+         'pattern': r"'=' => \{\s*self\.reader\.bump\(\);\s*if self\.reader\.current_char\(\) != '='",
+         'repl': "'=' => { self.reader.bump(); self.reader.reset_buff(); if self.reader.current_char() != '='",
+         'expect': r'C01\.lex\.one-reset-then-bumps-only'},
+        {'name': 'lex-eof-arm-by-sentinel', 'item': 'LuaLexer::lex',
+         'pattern': r"_ if self\.reader\.is_eof\(\) => LuaTokenKind::TkEof,", 'repl': "'\\0' => LuaTokenKind::TkEof,",
+         'expect': r'C0[12]\.lex\.(no-eof-kind-before-end|progress)'},
+        {'name': 'long-string-keeps-state-after-close', 'item': 'LuaLexer::lex_long_string',
+         'pattern': r'if end \|\| !self\.reader\.is_eof\(\) \{', 'repl': 'if !end && !self.reader.is_eof() {',
+         'expect': r'C01\.lex\.back-to-normal-state-unless-text-ended'},
+        {'name': 'eat-while-does-not-bump', 'item': 'Reader::eat_while',
+         'pattern': r'count \+= 1;\s*self\.bump\(\);', 'repl': 'count += 1;',
+         'expect': r'C02\.reader\.eat-'},
+    ],
 }
